@@ -117,6 +117,22 @@ pub fn run(ctx: &mut Ctx) {
                 descr().set("worst_error_nepers", worst).set("at_omega", worst_w).set("frames", st.frames_used),
             );
         }
+        // the response to the very first pulse (first frame) must realise the same spectrum
+        if st.first_decayed {
+            let mut worst1 = 0.0f64;
+            for j in &hs {
+                let w = st.omega(*j);
+                let e = (st.first_log_mag(w) - mcep_logspec(&c, alpha, w)).abs();
+                if e > worst1 || e.is_nan() {
+                    worst1 = e;
+                }
+            }
+            ctx.count("first_frame_responses_measured", 1.0);
+            ctx.max("worst_first_frame_error_nepers", worst1);
+            if !(worst1 <= 0.01) {
+                ctx.violation("first-frame-spectrum-mismatch", descr().set("worst_error_nepers", worst1));
+            }
+        }
         // c0 law: the response scales with exp(c0)
         let dc = if rng.chance(0.3) { rng.uniform(-12.0, 8.0) } else { rng.uniform(-1.5, 1.5) };
         let mut c2 = c.clone();
